@@ -1,6 +1,6 @@
 (** C27 — the hypotheses of the partial theorems are satisfiable by non-trivial states. *)
 From Coq Require Import List ZArith NArith Bool Lia.
-From C33 Require Import C27.Model C27.ProofsRefute C27.Proofs2.
+From C33 Require Import C27.Model C27.ProofsRefute C27.Proofs2 C27.Proofs3 C27.Proofs4.
 Import ListNotations.
 Open Scope Z_scope.
 
@@ -33,3 +33,28 @@ Lemma no_poison_nonvacuous :
   /\ valid_item f_verr f_item = true
   /\ vtip (vstep f_verr 0 (vrun f_verr 0 p_root f_hist) f_item) = 2%N.
 Proof. vm_compute. repeat split; try reflexivity. discriminate. Qed.
+
+(** inside the guard of [rejected_invisible_partial]: block 3 (fails a check)
+    and block 2, both children of block 1, wait in the orphan pool, 3 in front;
+    block 1 arrives (3 is executed, fails and is dropped, 2 is connected); then
+    block 4 on 2 arrives on the download path, fails and is deleted from the
+    index, and its valid sibling 5 is connected.  The history of
+    [rejected_no_effect_refuted] (a rejected block high and heavy enough to
+    start a reorganisation) is outside the guard. *)
+Definition q_hist : list item := o_hist ++ [mkI (mkB 4 2 3 1) 0 PDown; mkI (mkB 5 2 3 1) 0 PSync].
+Definition q_verr (h b : N) : N := if N.eqb h 3 || N.eqb h 4 then 5%N else 0%N.
+
+Lemma invisible_nonvacuous :
+  quiet_rejects q_verr 0 o_root q_hist = true
+  /\ length (filter (fun j => negb (valid_item q_verr j)) q_hist) = 2%nat
+  /\ vmain (vrun q_verr 0 o_root q_hist) = [5; 2; 1; 0]%N
+  /\ vorph (vrun q_verr 0 o_root q_hist) = []
+  /\ quiet_rejects w_verr 0 w_root (w_trunk ++ [w_side12; w_bad13]) = false.
+Proof. vm_compute. repeat split. Qed.
+
+(** the hypotheses of [valid_refines_C25]: valid bodies, consistent heights *)
+Lemma refines_nonvacuous :
+  hconsb (o_root :: map iblk o_hist) = true
+  /\ vmain (vrun (fun _ _ => 0%N) 0 o_root o_hist) = [3; 1; 0]%N
+  /\ hconsb (o_root :: map iblk [mkI (mkB 1 0 1 1) 0 PBcast; mkI (mkB 2 1 3 1) 0 PBcast]) = false.
+Proof. vm_compute. repeat split. Qed.
